@@ -127,6 +127,7 @@ type Result struct {
 	LoggedSteps  int                  `json:"logged_steps"`
 	LoggedBroken int                  `json:"logged_states_bound_broken"`
 	LoggedFaults int                  `json:"logged_faults"`
+	UnpaidTraced map[string]int       `json:"unpaid_growth_steps_in_trace"`
 	Events       int                  `json:"events"`
 	MaxDepth     int                  `json:"max_depth"`
 	Frames       int                  `json:"frames"`
@@ -279,6 +280,9 @@ func (t *tracer) CaptureState(env *vm.EVM, pc uint64, op vm.OpCode, gas, cost ui
 	if unpaid {
 		t.culprits++
 		t.violation(mk("unpaid-memory"))
+		if t.log {
+			t.res.UnpaidTraced[name]++
+		}
 	}
 	f.spent = spent
 	// state form of the property: what a frame holds is covered by what that frame has spent
@@ -712,7 +716,7 @@ func stdArgs() args {
 }
 
 func newResult() *Result {
-	return &Result{Classes: map[string]int{}, PerOp: map[string]*opStat{}, ViolationCnt: map[string]int{}, WorstUnpaid: map[string]Violation{}}
+	return &Result{Classes: map[string]int{}, PerOp: map[string]*opStat{}, ViolationCnt: map[string]int{}, UnpaidTraced: map[string]int{}, WorstUnpaid: map[string]Violation{}}
 }
 
 // first step event of `name` at depth 1
